@@ -245,7 +245,7 @@ def extract_update(tree: Tree) -> dict:
     model = {
         "tags": {k: v.hex() for k, v in sorted(tags.items())},
         "prelude": prelude,
-        "branches": [[k, json.loads(renumber(json.dumps(t)))] for k, t in branches],
+        "branches": [[k, json.loads(renumber(json.dumps(t, ensure_ascii=False)))] for k, t in branches],
     }
     return {"model": model, "unknown_helpers": ex.unknown_helpers, "extractor": ex, "raw_branches": branches}
 
@@ -255,7 +255,40 @@ def extract_fn(tree: Tree, modname: str, qual: str, tags) -> dict:
     ex = Extractor(tree, fn, tags)
     body = [s for s in fn.node.body if not (isinstance(s, ast.Expr) and isinstance(s.value, ast.Constant))]
     terms = ex.block(body)
-    return {"terms": json.loads(renumber(json.dumps(terms))), "raw": terms, "unknown_helpers": ex.unknown_helpers, "extractor": ex}
+    return {"terms": json.loads(renumber(json.dumps(terms, ensure_ascii=False))), "raw": terms, "unknown_helpers": ex.unknown_helpers, "extractor": ex}
+
+
+def abstract_decisions(terms, in_arg_loop=False):
+    """Remove from a term list what other rules decide semantically, so that the wire model does
+    not freeze it as text: (a) the skip logic of the argument loop (`if ...: continue`, decided by
+    the C02.R2 decision table) and (b) cache guards (conditions on _sealed / cached identifiers and
+    early returns of cached values, decided by C01.R3)."""
+    out = []
+    for t in terms:
+        if t[0] == "if":
+            cond = t[1]
+            then = abstract_decisions(t[2], in_arg_loop)
+            els = abstract_decisions(t[3], in_arg_loop)
+            if in_arg_loop and not then and not els:
+                continue
+            if any(k in cond for k in ("_sealed", "_full_identifier", "_raw_identifier")):
+                if not then and not els:
+                    continue
+                out.append(["if", "<cache-guard>", then, els])
+                continue
+            if not then and not els:
+                continue
+            out.append(["if", cond, then, els])
+        elif t[0] == "for":
+            is_arg = ".arguments" in t[1]
+            out.append(["for", t[1], abstract_decisions(t[2], in_arg_loop or is_arg)])
+        elif t[0] == "continue" and in_arg_loop:
+            continue
+        elif t[0] == "return" and any(k in (t[1] or "") for k in ("_raw_identifier", "_full_identifier", "raw_identifier", "full_identifier")):
+            continue
+        else:
+            out.append(t)
+    return out
 
 
 def full_model(tree: Tree) -> dict:
@@ -263,10 +296,16 @@ def full_model(tree: Tree) -> dict:
     tags = {k: bytes.fromhex(v) for k, v in up["model"]["tags"].items()}
     ids = extract_fn(tree, "core.objects", "ConfigInformation.identifiers", tags)
     comp = extract_fn(tree, "core.objects", "HashComputer.compute", tags)
+
+    def norm(raw):
+        return json.loads(renumber(json.dumps(abstract_decisions(raw), ensure_ascii=False)))
+
+    model = dict(up["model"])
+    model["branches"] = [[k, norm(t)] for k, t in up["raw_branches"]]
     return {
-        "update": up["model"],
-        "identifiers": ids["terms"],
-        "compute": comp["terms"],
+        "update": model,
+        "identifiers": norm(ids["raw"]),
+        "compute": norm(comp["raw"]),
         "_unknown_helpers": up["unknown_helpers"] + ids["unknown_helpers"] + comp["unknown_helpers"],
     }
 
